@@ -1,0 +1,10 @@
+//go:build verif
+// +build verif
+
+package utility
+
+// Verification hook (build tag "verif" only): never query NTP; GetTime uses the local
+// clock with a zero offset. Without the tag this file is not compiled.
+func init() {
+	ntpInitFlag = true
+}
